@@ -1024,9 +1024,10 @@ func c25Goroutines(subs ...string) int {
 func c25Finish(rec *c25Rec, cfg c25Cfg, tw *vfTraceWriter, trNo int, root string, t0 time.Time, bodyErr *atomic.Value) c25Result {
 	// If the cleaner does not terminate, quiescence cannot be established: then nothing is concluded
 	// from what is still open (no leak verdict ever depends on this wait expiring); closes and uses
-	// that already happened are judged all the same, and the test stops after this execution.
+	// that already happened are judged all the same, the test stops after this execution, and the
+	// execution is counted in the statistics (executions_without_quiescence) -- never an error.
 	stuck := false
-	deadline := time.Now().Add(45 * time.Second)
+	deadline := time.Now().Add(240 * time.Second) // only bounds the waiting; nothing is concluded from its expiry
 	// (goroutine dumps stop the world: poll with a growing pause)
 	for pause := 200 * time.Microsecond; c25Goroutines("handleCleanCache") > rec.cleaners; pause = min(2*pause, 50*time.Millisecond) {
 		if time.Now().After(deadline) {
@@ -1328,7 +1329,7 @@ func TestVerifC25FSCache(t *testing.T) {
 	kinds := map[string]int{}
 	ngated := vfEnvInt("VERIF_C25_GATED", 8)
 	orders := []string{"CR", "CRR", "RCR", "CRRR", "RCRR", "RC"}
-	gates, stuckAt, stuckStack := 0, 0, ""
+	gates, stuckAt, stuckStack, notQuiescent := 0, 0, "", 0
 	for n := 1; n <= ngated+ntr; n++ {
 		i := n - ngated // number of the ordinary execution
 		if n <= ngated {
@@ -1420,10 +1421,12 @@ func TestVerifC25FSCache(t *testing.T) {
 		}
 	}
 	tw.Close()
-	if stuckAt > 0 && nfail == 0 {
-		vfInfra(fmt.Sprintf("execution %d: the cache cleaner goroutine was still running 45s after its manager was closed and nothing else was observed; cleaner goroutines now:\n%s", stuckAt, stuckStack))
+	if stuckAt > 0 {
+		// the execution is not judged for leaks (and is the last one); it is only counted
+		notQuiescent = 1
+		t.Logf("execution %d: cleaner goroutine not observed to stop:\n%s", stuckAt, stuckStack)
 	}
-	vfStat(ntr+ngated, nontriv, vfRec{"gated_executions": ngated, "gates_established": gates, "events": total, "requests": reqs, "injected_faults": faults, "exec_ms_total": int(dur / time.Millisecond),
+	vfStat(ntr+ngated, nontriv, vfRec{"executions_without_quiescence": notQuiescent, "gated_executions": ngated, "gates_established": gates, "events": total, "requests": reqs, "injected_faults": faults, "exec_ms_total": int(dur / time.Millisecond),
 		"trace_file": os.Getenv("VERIF_WORK") + "/" + name})
 	vfDone()
 }
